@@ -557,10 +557,11 @@ def gj_chain(depth, close=True):
 
 # =============================================================================================== case construction
 class Case:
-    __slots__ = ('mode', 'data', 'cls', 'depth_hint')
+    __slots__ = ('mode', 'data', 'cls', 'depth_hint', 'base')
 
     def __init__(self, mode, data, cls, depth_hint=0):
         self.mode, self.data, self.cls, self.depth_hint = mode, data, cls, depth_hint
+        self.base = mode.upper()        # lower-case mode = the same reader with the option fix-structure on
 
     def line(self):
         return '%s %s' % (self.mode, self.data.hex())
@@ -863,6 +864,14 @@ def run(ctx):
                 w = l.split()
                 cases.append(Case(w[0], bytes.fromhex(w[1]) if len(w) > 1 else b'', 'corpus:' + (w[2] if len(w) > 2 else '')))
     cases += gen_cases(rng, quick)
+    # ---- reader options: the WKB and WKT reader objects have one option, fix-structure (off by default).  Every corpus case and
+    # a third of the generated WKB / HEX / WKT cases are ALSO run through a reader with the option on (lower-case mode), against
+    # the model with fix_rings = true.  (The GeoJSON reader and the buffer entry points have no options.)
+    opt = []
+    for c in cases:
+        if c.mode in 'BHT' and len(c.data) <= 262144 and (c.cls.startswith('corpus') or rng.random() < 0.34):
+            opt.append(Case(c.mode.lower(), c.data, c.cls + '+fix', c.depth_hint))
+    cases += opt
     # distinct inputs only
     seen = set(); uniq = []
     for c in cases:
@@ -913,12 +922,12 @@ def run(ctx):
 
     # ---- calibration of the linear time model on the flat inputs of this run
     def reader_of(c):
-        return {'B': 'wkb', 'H': 'wkb', 'T': 'wkt', 'J': 'geojson'}[c.mode]
+        return {'B': 'wkb', 'H': 'wkb', 'T': 'wkt', 'J': 'geojson'}[c.base]
     per_byte = {}
     for i in run_idx:
         c = cases[i]; r = impl[i]
         if ':flat' in c.cls and r['m'].get('cpu_us') is not None and len(c.data) >= MIB // 16:
-            per_byte.setdefault(c.mode, []).append(r['m']['cpu_us'] / len(c.data))
+            per_byte.setdefault(c.base, []).append(r['m']['cpu_us'] / len(c.data))
     a_us = {m: max(v) for m, v in per_byte.items()}
     for m in 'BHTJ':
         a_us.setdefault(m, 1.0)
@@ -928,7 +937,7 @@ def run(ctx):
 
     def time_limit_us(c, quadw):
         # linear in |input| plus the model's count of nodes walked by GeometryCollection::setSRID (each about as costly as a few input bytes)
-        return T0_US + SLACK * a_us[c.mode] * (len(c.data) + 8 * quadw)
+        return T0_US + SLACK * a_us[c.base] * (len(c.data) + 8 * quadw)
 
     def alloc_limit(c, slots):
         return 65536 + 128 * len(c.data) + 8 * slots
@@ -945,7 +954,7 @@ def run(ctx):
         depth = mstats.get('dmax', c.depth_hint) if md else c.depth_hint
         nontrivial = (mstats.get('nodes', 0) >= 1) if md else len(c.data) > 8
         ctx.count((c.mode, c.data), nontrivial)
-        vkey = '%s:%s/%s' % (rd, md['v'] if md else '-', r['v'])
+        vkey = '%s%s:%s/%s' % (rd, '+fix' if c.mode.islower() else '', md['v'] if md else '-', r['v'])
         verdicts[vkey] = verdicts.get(vkey, 0) + 1
         if r['v'] == 'ACC':
             postd[r['post']] = postd.get(r['post'], 0) + 1
@@ -968,7 +977,7 @@ def run(ctx):
             if len(c.data) >= 4096:
                 worst_t[key] = max(worst_t.get(key, 0), t_us / len(c.data)); worst_a[key] = max(worst_a.get(key, 0), peak / len(c.data))
             d_ok = depth <= D[rd]
-            lim_prop_t = T0_US + SLACK * a_us[c.mode] * len(c.data) * (1 + 8 * 2 * (D[rd] + 1) / 5.0)
+            lim_prop_t = T0_US + SLACK * a_us[c.base] * len(c.data) * (1 + 8 * 2 * (D[rd] + 1) / 5.0)
             lim_prop_a = 65536 + 128 * len(c.data) + 2 * (D[rd] + 1) * len(c.data)
             if t_us > time_limit_us(c, quadw) and (t_us > lim_prop_t or d_ok):
                 t2 = recheck_time(hexe, lines[i])
@@ -996,7 +1005,9 @@ def run(ctx):
                 name = '%s_%d' % (rd, i)
                 p = os.path.join(ROOT, 'replays', 'C11_case_%s.txt' % hashlib.md5(c.data).hexdigest()[:12])
                 open(p, 'w').write('%s %s\n' % (c.mode, (sh_data if sh_data is not None else c.data).hex()))
-                ctx.violation(name, dict(entry_points={'B': 'GEOSWKBReader_read_r, GEOSGeomFromWKB_buf_r', 'H': 'GEOSWKBReader_readHEX_r, GEOSGeomFromHEX_buf_r', 'T': 'GEOSWKTReader_read_r, GEOSGeomFromWKT_r', 'J': 'GEOSGeoJSONReader_readGeometry_r'}[c.mode],
+                ctx.violation(name, dict(entry_points={'B': 'GEOSWKBReader_read_r, GEOSGeomFromWKB_buf_r', 'H': 'GEOSWKBReader_readHEX_r, GEOSGeomFromHEX_buf_r', 'T': 'GEOSWKTReader_read_r, GEOSGeomFromWKT_r', 'J': 'GEOSGeoJSONReader_readGeometry_r',
+                                                       'b': 'GEOSWKBReader_read_r after GEOSWKBReader_setFixStructure_r(reader, 1)', 'h': 'GEOSWKBReader_readHEX_r after GEOSWKBReader_setFixStructure_r(reader, 1)',
+                                                       't': 'GEOSWKTReader_read_r after GEOSWKTReader_setFixStructure_r(reader, 1)'}[c.mode],
                                          generator_class=c.cls, input_len=len(c.data), input_hex=(c.data.hex() if len(c.data) <= 4096 else c.data[:2048].hex() + '...'),
                                          shrunk_hex=(sh_data.hex() if sh_data is not None and len(sh_data) <= 4096 else None), model=md, implementation=r,
                                          expected='a geometry or NULL with an error message; no crash, no sanitizer report, time and allocation within the stated linear budgets',
@@ -1029,7 +1040,7 @@ def run(ctx):
     for n in need:
         if not any(k.startswith(n) for k in dist):
             ctx.broken.append(dict(kind='generator', name='distribution', detail='no case of class %s was run' % n))
-    for want in ('wkb:ACC/ACC', 'wkb:REJ/REJ', 'wkt:ACC/ACC', 'wkt:REJ/REJ'):
+    for want in ('wkb:ACC/ACC', 'wkb:REJ/REJ', 'wkt:ACC/ACC', 'wkt:REJ/REJ', 'wkb+fix:ACC/ACC', 'wkb+fix:REJ/REJ', 'wkt+fix:ACC/ACC', 'wkt+fix:REJ/REJ'):
         if verdicts.get(want, 0) < 50:
             ctx.broken.append(dict(kind='generator', name='distribution', detail='fewer than 50 cases with model/implementation verdict %s' % want))
 
